@@ -18,6 +18,7 @@ import (
 	"testing"
 	"time"
 
+	"github.com/daeuniverse/dae/common/consts"
 	"github.com/daeuniverse/dae/config"
 	"github.com/daeuniverse/dae/component/outbound/dialer"
 	"github.com/daeuniverse/dae/pkg/config_parser"
@@ -76,8 +77,16 @@ type c14Result struct {
 	PErrMsg string            `json:"perrmsg,omitempty"`
 	Re      map[string]c14Re  `json:"re"`
 	Dur     map[string]*int64 `json:"dur"`
+	Fixed   *c14Fixed         `json:"fixed,omitempty"` // fixed policy on a built group: DialerGroup.Select
 	Text    string            `json:"text,omitempty"` // "", "same", "differs: ...", "error: ..."
 	Panic   string            `json:"panic,omitempty"`
+}
+
+type c14Fixed struct {
+	Idx    int64  `json:"idx"`
+	Err    string `json:"err,omitempty"`
+	ErrMsg string `json:"errmsg,omitempty"`
+	Group  string `json:"group,omitempty"` // "" or how DialerGroup's own member list differs from FilterAndAnnotate's
 }
 
 type c14NoopDialer struct{}
@@ -223,7 +232,32 @@ func c14Run(c *c14Case) (res c14Result) {
 		}
 	}
 
-	ds, as, err := set.FilterAndAnnotate(filters, annos)
+	var pol config.FunctionListOrString
+	switch c.Policy.Type {
+	case "string":
+		pol = c14Unhex(c.Policy.S)
+	case "func":
+		pol = c14Funcs(c.Policy.Fs)[0]
+	case "funcs":
+		fs := c14Funcs(c.Policy.Fs)
+		if fs == nil {
+			fs = []*config_parser.Function{}
+		}
+		pol = fs
+	default:
+		pol = 42
+	}
+	c14Eval(option, set, index, &config.Group{Name: "g", Filter: filters, FilterAnnotation: annos, Policy: pol}, &res)
+
+	if c.Text != "" {
+		res.Text = c14TextPath(option, set, index, c.Text, filters, annos, pol, &res)
+	}
+	return res
+}
+
+// c14Eval runs the two production entry points exactly as control_plane.go does for one group.
+func c14Eval(option *dialer.GlobalOption, set *DialerSet, index map[*dialer.Dialer]int, g *config.Group, res *c14Result) {
+	ds, as, err := set.FilterAndAnnotate(g.Filter, g.FilterAnnotation)
 	if err != nil {
 		res.Err = c14GroupErrClass(err)
 		res.ErrMsg = err.Error()
@@ -241,34 +275,128 @@ func c14Run(c *c14Case) (res c14Result) {
 			var lat int64 = -1
 			if i < len(as) && as[i] != nil {
 				lat = int64(as[i].AddLatency)
+			} else {
+				ix = -2
 			}
 			res.Members = append(res.Members, [2]int64{int64(ix), lat})
 		}
 	}
-
-	var pol config.FunctionListOrString
-	switch c.Policy.Type {
-	case "string":
-		pol = c14Unhex(c.Policy.S)
-	case "func":
-		pol = c14Funcs(c.Policy.Fs)[0]
-	case "funcs":
-		fs := c14Funcs(c.Policy.Fs)
-		if fs == nil {
-			fs = []*config_parser.Function{}
-		}
-		pol = fs
-	default:
-		pol = 42
-	}
-	p, err := NewDialerSelectionPolicyFromGroupParam(&config.Group{Name: "g", Filter: filters, FilterAnnotation: annos, Policy: pol})
+	p, err := NewDialerSelectionPolicyFromGroupParam(g)
 	if err != nil {
 		res.PErr = c14PolicyErrClass(err)
 		res.PErrMsg = err.Error()
 	} else {
 		res.Policy = &c14PolicyOut{Kind: string(p.Policy), Index: int64(p.FixedIndex)}
 	}
-	return res
+	// As control_plane.go does next: the group is built from exactly these dialers, annotations and
+	// policy.  For fixed(i) (no health state involved) also ask the group to select.
+	if err == nil && res.Err == "" && p.Policy == consts.DialerSelectionPolicy_Fixed {
+		grp := NewDialerGroup(option, g.Name, ds, as, *p, func(bool, *dialer.NetworkType, bool) {})
+		fx := &c14Fixed{Idx: -1}
+		if len(grp.Dialers) != len(ds) || len(grp.dialersAnnotations) != len(as) {
+			fx.Group = "length"
+		} else {
+			for i := range ds {
+				if grp.Dialers[i] != ds[i] || grp.dialersAnnotations[i] != as[i] {
+					fx.Group = fmt.Sprintf("member %d", i)
+					break
+				}
+			}
+		}
+		d, _, serr := grp.Select(&dialer.NetworkType{L4Proto: consts.L4ProtoStr_TCP, IpVersion: consts.IpVersionStr_4}, true)
+		if serr != nil {
+			fx.ErrMsg = serr.Error()
+			switch {
+			case strings.HasPrefix(fx.ErrMsg, "selected dialer index is out of range"):
+				fx.Err = "sel_range"
+			case strings.HasPrefix(fx.ErrMsg, "no dialer in this group"):
+				fx.Err = "sel_empty"
+			default:
+				fx.Err = "other"
+			}
+		} else if ix, ok := index[d]; ok {
+			fx.Idx = int64(ix)
+		} else {
+			fx.Err = "other"
+			fx.ErrMsg = "selected dialer is not a pool node"
+		}
+		_ = grp.Close()
+		res.Fixed = fx
+	}
+}
+
+func c14SameFuncs(a, b []*config_parser.Function) bool {
+	if len(a) != len(b) {
+		return false
+	}
+	for i := range a {
+		if a[i].Name != b[i].Name || a[i].Not != b[i].Not || !c14SameParams(a[i].Params, b[i].Params) {
+			return false
+		}
+	}
+	return true
+}
+
+func c14SameParams(a, b []*config_parser.Param) bool {
+	if len(a) != len(b) {
+		return false
+	}
+	for i := range a {
+		if a[i].Key != b[i].Key || a[i].Val != b[i].Val || a[i].AndFunctions != nil || b[i].AndFunctions != nil {
+			return false
+		}
+	}
+	return true
+}
+
+// c14TextPath parses the configuration text with the production parser (config_parser.Parse + config.New),
+// checks that the one group it declares is the definition the case describes (filter lines, the
+// annotation attached to each line, policy value) and that evaluating it gives the same answers.
+func c14TextPath(option *dialer.GlobalOption, set *DialerSet, index map[*dialer.Dialer]int, text string, filters [][]*config_parser.Function,
+	annos [][]*config_parser.Param, pol config.FunctionListOrString, want *c14Result) string {
+	sections, err := config_parser.Parse(text)
+	if err != nil {
+		return "error: parse: " + err.Error()
+	}
+	conf, err := config.New(sections)
+	if err != nil {
+		return "error: config.New: " + err.Error()
+	}
+	if len(conf.Group) != 1 {
+		return fmt.Sprintf("differs: %d groups", len(conf.Group))
+	}
+	g := conf.Group[0]
+	if len(g.Filter) != len(filters) || len(g.FilterAnnotation) != len(annos) {
+		return fmt.Sprintf("differs: %d filter lines and %d annotations, expected %d and %d", len(g.Filter), len(g.FilterAnnotation), len(filters), len(annos))
+	}
+	for i := range filters {
+		if !c14SameFuncs(g.Filter[i], filters[i]) {
+			return fmt.Sprintf("differs: filter line %d", i)
+		}
+		if !c14SameParams(g.FilterAnnotation[i], annos[i]) {
+			return fmt.Sprintf("differs: annotation of line %d", i)
+		}
+	}
+	switch w := pol.(type) {
+	case string:
+		if got, ok := g.Policy.(string); !ok || got != w {
+			return fmt.Sprintf("differs: policy %#v", g.Policy)
+		}
+	case []*config_parser.Function:
+		if got, ok := g.Policy.([]*config_parser.Function); !ok || !c14SameFuncs(got, w) {
+			return fmt.Sprintf("differs: policy %#v", g.Policy)
+		}
+	default:
+		return "error: harness: policy type not expressible as text"
+	}
+	var res2 c14Result
+	c14Eval(option, set, index, &g, &res2)
+	j1, _ := json.Marshal([]any{want.Members, want.Err, want.Policy, want.PErr, want.Fixed})
+	j2, _ := json.Marshal([]any{res2.Members, res2.Err, res2.Policy, res2.PErr, res2.Fixed})
+	if string(j1) != string(j2) {
+		return "differs: answers " + string(j2)
+	}
+	return "same"
 }
 
 func TestVerifC14(t *testing.T) {
